@@ -139,6 +139,10 @@ ArriveMove(s, t) ==
          Mv(Lab("visit", n.id, 0),
             [s EXCEPT !.tok = AddToks(rest, {[t EXCEPT !.at = n.id, !.st = "arriving"]}),
                       !.inbox[n.id] = [k \in DOMAIN @ |-> IF @[k].done THEN @[k] ELSE [@[k] EXCEPT !.racy = TRUE]]])
+    [] n.kind = "throw" ->
+         \* an intermediate throw event lets the token pass (what it throws is
+         \* a matter of the process set: ProcessSet / ProcessSetTrace)
+         Mv(Tau, [s EXCEPT !.tok = AddToks(rest, {[t EXCEPT !.at = n.id, !.st = "in"]})])
     [] n.kind = "evgw" ->
          \* one competing token per alternative
          LET k == s.nact + 1 IN
